@@ -416,26 +416,101 @@ func runKern(c *wk.Case) {
 	if _, err := f.Write(w); err != nil {
 		c.Fail("harness", "kern", "Write: %v", err)
 	}
-	k := kern.Info{}
-	np := t.Range(1, 12)
-	for i := 0; i < np; i++ {
-		v := funit.Int16(t.Range(1, 400) - 200)
-		if v == 0 {
-			v = 7
+	// a kern table with 1..4 subtables: accumulating, minimum and override
+	// subtables plus subtables a reader must ignore (vertical, cross-stream,
+	// format 2); the expected value of every pair follows the OpenType
+	// definition of the coverage bits
+	k := kern.Info{} // expected result
+	pick := func() glyph.ID { return glyph.ID(1 + t.Draw(min(n-1, 39, 6+t.Draw(34)))) }
+	var kernTable []byte
+	simple := t.Chance(1, 3)
+	if simple {
+		np := t.Range(1, 12)
+		for i := 0; i < np; i++ {
+			v := funit.Int16(t.Range(1, 400) - 200)
+			if v == 0 {
+				v = 7
+			}
+			k[glyph.Pair{Left: pick(), Right: pick()}] = v
 		}
-		k[glyph.Pair{Left: glyph.ID(1 + t.Draw(min(n-1, 39))), Right: glyph.ID(1 + t.Draw(min(n-1, 39)))}] = v
+		kernTable = k.Encode()
+	} else {
+		nt := t.Range(1, 4)
+		kernTable = []byte{0, 0, 0, byte(nt)}
+		for st := 0; st < nt; st++ {
+			kind := t.Weighted(4, 2, 2, 1, 1, 1) // accumulate, minimum, override, vertical, cross-stream, format 2
+			pairs := map[glyph.Pair]funit.Int16{}
+			for i := t.Range(0, 8); i > 0; i-- {
+				v := funit.Int16(t.Range(0, 300) - 150)
+				if t.Chance(1, 4) {
+					v = 0
+				}
+				pairs[glyph.Pair{Left: pick(), Right: pick()}] = v
+			}
+			var keys []glyph.Pair
+			for p := range pairs {
+				keys = append(keys, p)
+			}
+			sort.Slice(keys, func(i, j int) bool {
+				if keys[i].Left != keys[j].Left {
+					return keys[i].Left < keys[j].Left
+				}
+				return keys[i].Right < keys[j].Right
+			})
+			format, flags := byte(0), byte(1)
+			switch kind {
+			case 1:
+				flags = 1 | 2
+			case 2:
+				flags = 1 | 8
+			case 3:
+				flags = 0
+			case 4:
+				flags = 1 | 4
+			case 5:
+				format = 2
+			}
+			np := len(keys)
+			es := 0
+			for (1 << (es + 1)) <= np {
+				es++
+			}
+			sr := 0
+			if np > 0 {
+				sr = 6 * (1 << es)
+			}
+			length := 14 + 6*np
+			sub := []byte{0, 0, byte(length >> 8), byte(length), format, flags,
+				byte(np >> 8), byte(np), byte(sr >> 8), byte(sr), byte(es >> 8), byte(es), byte((6*np - sr) >> 8), byte(6*np - sr)}
+			for _, p := range keys {
+				v := pairs[p]
+				sub = append(sub, byte(p.Left>>8), byte(p.Left), byte(p.Right>>8), byte(p.Right), byte(v>>8), byte(v))
+				switch kind {
+				case 0:
+					k[p] += v
+				case 1:
+					if k[p] < v {
+						k[p] = v
+					}
+				case 2:
+					k[p] = v
+				}
+			}
+			kernTable = append(kernTable, sub...)
+			c.Logf("kern subtable %d: kind %d pairs %v", st, kind, pairs)
+		}
 	}
-	b := rebuild(c, w.Disk, map[string][]byte{"kern": k.Encode()})
+	b := rebuild(c, w.Disk, map[string][]byte{"kern": kernTable})
 	var g *sfnt.Font
 	var err error
 	c.MustNotPanic("Read(kern font)", func() { g, err = sfnt.Read(bytes.NewReader(b)) })
 	if err != nil {
 		c.Fail("kern", "Read", "a font with a kern table written by kern.Info.Encode is rejected: %v", err)
 	}
-	c.Sample = map[string]any{"kind": "kern table", "pairs": len(k), "glyphs": n}
+	c.Sample = map[string]any{"kind": "kern table", "pairs": len(k), "glyphs": n, "single_subtable_by_library_encoder": simple}
 	c.Logf("kern font: %d glyphs, pairs %v", n, k)
 	c.Sig(simgen.Digest(b))
-	c.Class("kern")
+	c.Class(fmt.Sprintf("kern|simple=%v", simple))
 	var l *sfnt.Layouter
 	c.MustNotPanic("NewLayouter(kern font)", func() { l, err = g.NewLayouter(language.Und, nil, nil) })
 	if err != nil {
@@ -458,7 +533,7 @@ func runKern(c *wk.Case) {
 		check(p.Left, p.Right)
 	}
 	for i := 0; i < 6; i++ {
-		check(glyph.ID(1+t.Draw(min(n-1, 39))), glyph.ID(1+t.Draw(min(n-1, 39))))
+		check(pick(), pick())
 	}
 	c.Count("kern_fonts_checked_(incidental)", 1)
 }
